@@ -837,7 +837,7 @@ impl Arena {
         Freelist::Optimistic => match self.alloc_slow_path_optimistic(size) {
           Ok(bytes) => return Ok(Some(bytes)),
           Err(e) => {
-            if i == self.max_retries - 1 {
+            if i >= self.max_retries.saturating_sub(1) {
               return Err(e);
             }
           }
@@ -845,7 +845,7 @@ impl Arena {
         Freelist::Pessimistic => match self.alloc_slow_path_pessimistic(size) {
           Ok(bytes) => return Ok(Some(bytes)),
           Err(e) => {
-            if i == self.max_retries - 1 {
+            if i >= self.max_retries.saturating_sub(1) {
               return Err(e);
             }
           }
@@ -998,7 +998,7 @@ impl Arena {
               return Ok(Some(bytes));
             }
             Err(e) => {
-              if i == self.max_retries - 1 {
+              if i >= self.max_retries.saturating_sub(1) {
                 return Err(e);
               }
             }
@@ -1011,7 +1011,7 @@ impl Arena {
               return Ok(Some(bytes));
             }
             Err(e) => {
-              if i == self.max_retries - 1 {
+              if i >= self.max_retries.saturating_sub(1) {
                 return Err(e);
               }
             }
@@ -1152,7 +1152,7 @@ impl Arena {
             return Ok(Some(allocated));
           }
           Err(e) => {
-            if i == self.max_retries - 1 {
+            if i >= self.max_retries.saturating_sub(1) {
               return Err(e);
             }
           }
@@ -1163,7 +1163,7 @@ impl Arena {
             return Ok(Some(allocated));
           }
           Err(e) => {
-            if i == self.max_retries - 1 {
+            if i >= self.max_retries.saturating_sub(1) {
               return Err(e);
             }
           }
